@@ -1,6 +1,6 @@
 """C09 driver: decoders under memory limits with a size-recording lzma_allocator, estimate-vs-peak measurements,
 file patching (declared dictionary size).  Events go to spec/TraceMemLimit.tla."""
-import ctypes as C, zlib, hashlib
+import ctypes as C, zlib, hashlib, time
 from . import lz, coders
 
 UNL = 2147483647          # how UINT64_MAX is logged (TLC integers are 32-bit)
@@ -287,3 +287,53 @@ def measure_peak(make, data, finish=lz.FINISH):
     res = lz.run_coder(c, data, finish_action=finish)
     c.end()
     return al.peak, res["ret"]
+
+
+def measure_peak_slow(make, data, stall_s=0.4):
+    """Like measure_peak, but with a slow consumer: all input is offered while only one byte of output space is
+    given per lzma_code() call for stall_s seconds (so that a threaded encoder fills its whole output queue),
+    then the output is drained."""
+    al = SizeAlloc()
+    c = lz.Coder(al)
+    r = make(c)
+    if r != lz.OK:
+        c.end()
+        return None, r
+    s = c.strm
+    ib = lz.Buf(len(data), data); ob = lz.Buf(1 << 16)
+    s.next_in = ib.addr; s.avail_in = len(data)
+    t0 = time.time()
+    r = lz.OK
+    while r == lz.OK and time.time() - t0 < stall_s:
+        s.next_out = ob.addr; s.avail_out = 1
+        r = c.code_raw(lz.RUN if s.avail_in else lz.FINISH)
+        time.sleep(0.001)
+    n = 0
+    while r == lz.OK and n < 1000000:
+        s.next_out = ob.addr; s.avail_out = 1 << 16
+        r = c.code_raw(lz.RUN if s.avail_in else lz.FINISH)
+        n += 1
+    c.end()
+    return al.peak, r
+
+
+# ---------------------------------------------------------------- synthetic multi-Stream files with large Indexes
+def synth_xz_stream(records, check=lz.CHECK_CRC32):
+    """A Stream that is valid for lzma_file_info_decoder (Stream Header, Block area of the right size, Index,
+    Stream Footer); the Block area is zero-filled (the file info decoder never decodes Blocks).
+    records: list of (unpadded_size, uncompressed_size)."""
+    L = lz.L()
+    idx = L.lzma_index_init(None)
+    area = 0
+    for u, n in records:
+        assert L.lzma_index_append(idx, None, u, n) == lz.OK
+        area += (u + 3) // 4 * 4
+    isize = L.lzma_index_size(idx)
+    ibuf = lz.Buf(isize); pos = C.c_size_t(0)
+    assert L.lzma_index_buffer_encode(idx, ibuf.addr, C.byref(pos), isize) == lz.OK
+    L.lzma_index_end(idx, None)
+    sf = lz.StreamFlags(); sf.version = 0; sf.check = check; sf.backward_size = isize
+    hb = lz.Buf(12); fb = lz.Buf(12)
+    assert L.lzma_stream_header_encode(C.byref(sf), hb.addr) == lz.OK
+    assert L.lzma_stream_footer_encode(C.byref(sf), fb.addr) == lz.OK
+    return hb.data(12) + bytes(area) + ibuf.data(pos.value) + fb.data(12)
